@@ -984,3 +984,125 @@ package types
 //@   modifies elems(coins)
 //@   ensures [canonical] (forall i int, j int :: {r[i], r[j]} 0 <= i && i < j && j < len(r) ==> str_lt(r[i].Denom, r[j].Denom)) && (forall i int :: {r[i]} 0 <= i && i < len(r) ==> val(r[i].Amount) > 0 && denom_re(r[i].Denom))
 //@   ensures [same] len(r) == len(coins)
+
+// ---------------------------------------------------------------- dec_coin.go
+// DecCoins: the same merge arithmetic over Dec amounts (val = the decimal's raw integer); contracts transcribed
+// from the Coins ones.
+//@ func (coin DecCoin) IsZero() (r bool)
+//@   props C18
+//@   requires coin.Amount.Int != nil
+//@   ensures r == (val(coin.Amount) == 0)
+//@ func (coin DecCoin) IsPositive() (r bool)
+//@   props C18
+//@   requires coin.Amount.Int != nil
+//@   ensures r == (val(coin.Amount) > 0)
+//@ func (coin DecCoin) IsNegative() (r bool)
+//@   props C18
+//@   requires coin.Amount.Int != nil
+//@   ensures r == (val(coin.Amount) < 0)
+// removeZeroDecCoins on a set without zero coins (every valid operand): the same slice, nothing written
+//@ func removeZeroDecCoins(coins DecCoins) (r DecCoins)
+//@   props C18
+//@   requires forall i int :: 0 <= i && i < len(coins) ==> coins[i].Amount.Int != nil && val(coins[i].Amount) != 0
+//@   loop 1 frame
+//@   loop 1 invariant 0 <= i && i <= l && l == len(coins) && coins == old(coins)
+//@   ensures r == coins
+//@ func (coin DecCoin) Add(coinB DecCoin) (r DecCoin)
+//@   props C18
+//@   requires coin.Amount.Int != nil && coinB.Amount.Int != nil
+//@   may_panic
+//@   ensures coin.Denom == coinB.Denom && r.Denom == coin.Denom && r.Amount.Int != nil && fresh(r.Amount.Int) && val(r.Amount) == val(coin.Amount) + val(coinB.Amount)
+// C18: the merge of two sorted coin sets without zero coins is sorted, holds for every denomination the sum of
+// the two amounts, drops denominations whose sum is zero, and leaves both operands untouched (no modifies clause:
+// every cell that existed before the call keeps its content).
+//@ func (coins DecCoins) safeAdd(coinsB DecCoins) (r DecCoins)
+//@   props C18
+//@   may_panic
+//@   define amtA(d) := coins[i].Denom => val(coins[i].Amount) for i in 0..len(coins) else 0
+//@   define amtB(d) := coinsB[i].Denom => val(coinsB[i].Amount) for i in 0..len(coinsB) else 0
+//@   requires forall i int, j int :: {coins[i], coins[j]} 0 <= i && i < j && j < len(coins) ==> str_lt(coins[i].Denom, coins[j].Denom)
+//@   requires forall i int, j int :: {coinsB[i], coinsB[j]} 0 <= i && i < j && j < len(coinsB) ==> str_lt(coinsB[i].Denom, coinsB[j].Denom)
+//@   requires forall i int :: {coins[i]} 0 <= i && i < len(coins) ==> coins[i].Amount.Int != nil && val(coins[i].Amount) != 0
+//@   requires forall i int :: {coinsB[i]} 0 <= i && i < len(coinsB) ==> coinsB[i].Amount.Int != nil && val(coinsB[i].Amount) != 0
+//@   loop 1 frame
+//@   loop 1 decreases (lenA - indexA) + (lenB - indexB)
+//@   loop 1 invariant 0 <= indexA && indexA <= lenA && 0 <= indexB && indexB <= lenB && lenA == len(coins) && lenB == len(coinsB) && ((ref(sum) == 0 && cap(sum) == 0 && len(sum) == 0) || fresh(sum))
+//@   loop 1 invariant forall k int, l int :: {sum[k], sum[l]} 0 <= k && k < l && l < len(sum) ==> str_lt(sum[k].Denom, sum[l].Denom)
+//@   loop 1 invariant forall k int :: {sum[k]} 0 <= k && k < len(sum) ==> (indexA < lenA ==> str_lt(sum[k].Denom, coins[indexA].Denom)) && (indexB < lenB ==> str_lt(sum[k].Denom, coinsB[indexB].Denom))
+//@   loop 1 invariant forall k int :: {sum[k]} 0 <= k && k < len(sum) ==> sum[k].Amount.Int != nil && val(sum[k].Amount) == amtA(sum[k].Denom) + amtB(sum[k].Denom) && val(sum[k].Amount) != 0
+//@   loop 1 invariant forall j int :: {coinsB[j]} 0 <= j && j < indexB && indexA < lenA ==> str_lt(coinsB[j].Denom, coins[indexA].Denom)
+//@   loop 1 invariant forall i int :: {coins[i]} 0 <= i && i < indexA && indexB < lenB ==> str_lt(coins[i].Denom, coinsB[indexB].Denom)
+//@   loop 1 invariant forall i int :: {coins[i]} 0 <= i && i < indexA ==> (exists k int :: {k == len(sum) - 1} 0 <= k && k < len(sum) && sum[k].Denom == coins[i].Denom) || amtA(coins[i].Denom) + amtB(coins[i].Denom) == 0
+//@   loop 1 invariant forall j int :: {coinsB[j]} 0 <= j && j < indexB ==> (exists k int :: {k == len(sum) - 1} 0 <= k && k < len(sum) && sum[k].Denom == coinsB[j].Denom) || amtA(coinsB[j].Denom) + amtB(coinsB[j].Denom) == 0
+//@   ensures [sorted] forall k int, l int :: {r[k], r[l]} 0 <= k && k < l && l < len(r) ==> str_lt(r[k].Denom, r[l].Denom)
+//@   ensures [amounts] forall k int :: {r[k]} 0 <= k && k < len(r) ==> r[k].Amount.Int != nil && val(r[k].Amount) == amtA(r[k].Denom) + amtB(r[k].Denom) && val(r[k].Amount) != 0
+//@   ensures [positive] (forall i int :: {coins[i]} 0 <= i && i < len(coins) ==> val(coins[i].Amount) > 0) && (forall i int :: {coinsB[i]} 0 <= i && i < len(coinsB) ==> val(coinsB[i].Amount) > 0) ==> (forall k int :: {r[k]} 0 <= k && k < len(r) ==> val(r[k].Amount) > 0)
+//@   ensures [completeA] forall i int :: {coins[i]} 0 <= i && i < len(coins) ==> (exists k int :: {k == len(r) - (len(coins) - i)} 0 <= k && k < len(r) && r[k].Denom == coins[i].Denom) || amtA(coins[i].Denom) + amtB(coins[i].Denom) == 0
+//@   ensures [completeB] forall j int :: {coinsB[j]} 0 <= j && j < len(coinsB) ==> (exists k int :: {k == len(r) - (len(coinsB) - j)} 0 <= k && k < len(r) && r[k].Denom == coinsB[j].Denom) || amtA(coinsB[j].Denom) + amtB(coinsB[j].Denom) == 0
+//@ func (coins DecCoins) Add(coinsB DecCoins) (r DecCoins)
+//@   props C18
+//@   same_as types.DecCoins.safeAdd
+// negative: the same denominations with negated amounts, in a fresh slice; the operand is untouched
+//@ func (coins DecCoins) negative() (r DecCoins)
+//@   props C18
+//@   requires forall i int :: {coins[i]} 0 <= i && i < len(coins) ==> coins[i].Amount.Int != nil
+//@   loop 1 frame
+//@   loop 1 invariant 0 - 1 <= #rangeindex && #rangeindex < len(coins) && len(res) == #rangeindex + 1 && fresh(res) && coins == old(coins)
+//@   loop 1 invariant forall i int :: {res[i]} 0 <= i && i < len(res) ==> res[i].Denom == coins[i].Denom && res[i].Amount.Int != nil && val(res[i].Amount) == 0 - val(coins[i].Amount)
+//@   ensures len(r) == len(coins) && (len(coins) > 0 ==> fresh(r))
+//@   ensures forall i int :: {r[i]} 0 <= i && i < len(r) ==> r[i].Denom == coins[i].Denom && r[i].Amount.Int != nil && val(r[i].Amount) == 0 - val(coins[i].Amount)
+//@   ensures forall i int :: {coins[i]} 0 <= i && i < len(r) ==> r[i].Denom == coins[i].Denom && r[i].Amount.Int != nil && val(r[i].Amount) == 0 - val(coins[i].Amount)   // same fact, triggered from the operand
+//@ func (coins DecCoins) IsAnyNegative() (r bool)
+//@   props C18
+//@   requires forall i int :: {coins[i]} 0 <= i && i < len(coins) ==> coins[i].Amount.Int != nil
+//@   loop 1 invariant 0 - 1 <= #rangeindex && #rangeindex < len(coins)
+//@   loop 1 invariant forall i int :: {coins[i]} 0 <= i && i <= #rangeindex ==> val(coins[i].Amount) >= 0
+//@   ensures r == (exists i int :: 0 <= i && i < len(coins) && val(coins[i].Amount) < 0)
+// C18: SafeSub is addition of the negated set: per denomination the difference of the two amounts, zero
+// differences dropped, sorted; hasNeg reports exactly whether some difference is negative. Operands untouched.
+//@ func (coins DecCoins) SafeSub(coinsB DecCoins) (diff DecCoins, hasNeg bool)
+//@   props C18
+//@   may_panic
+//@   define amtA(d) := coins[i].Denom => val(coins[i].Amount) for i in 0..len(coins) else 0
+//@   define amtB(d) := coinsB[i].Denom => val(coinsB[i].Amount) for i in 0..len(coinsB) else 0
+//@   requires forall i int, j int :: {coins[i], coins[j]} 0 <= i && i < j && j < len(coins) ==> str_lt(coins[i].Denom, coins[j].Denom)
+//@   requires forall i int, j int :: {coinsB[i], coinsB[j]} 0 <= i && i < j && j < len(coinsB) ==> str_lt(coinsB[i].Denom, coinsB[j].Denom)
+//@   requires forall i int :: {coins[i]} 0 <= i && i < len(coins) ==> coins[i].Amount.Int != nil && val(coins[i].Amount) != 0
+//@   requires forall i int :: {coinsB[i]} 0 <= i && i < len(coinsB) ==> coinsB[i].Amount.Int != nil && val(coinsB[i].Amount) != 0
+//@   ensures [sorted] forall k int, l int :: {diff[k], diff[l]} 0 <= k && k < l && l < len(diff) ==> str_lt(diff[k].Denom, diff[l].Denom)
+//@   ensures [amounts] forall k int :: {diff[k]} 0 <= k && k < len(diff) ==> diff[k].Amount.Int != nil && val(diff[k].Amount) == amtA(diff[k].Denom) - amtB(diff[k].Denom) && val(diff[k].Amount) != 0
+//@   ensures [completeA] forall i int :: {coins[i]} 0 <= i && i < len(coins) ==> (exists k int :: 0 <= k && k < len(diff) && diff[k].Denom == coins[i].Denom) || amtA(coins[i].Denom) - amtB(coins[i].Denom) == 0
+//@   ensures [completeB] forall j int :: {coinsB[j]} 0 <= j && j < len(coinsB) ==> (exists k int :: 0 <= k && k < len(diff) && diff[k].Denom == coinsB[j].Denom) || amtA(coinsB[j].Denom) - amtB(coinsB[j].Denom) == 0
+//@   ensures [hasneg] hasNeg == (exists k int :: 0 <= k && k < len(diff) && val(diff[k].Amount) < 0)
+// C18: Sub returns the per-denomination differences when none is negative (every amount of the result is then
+// positive) and panics otherwise (it can also panic on 256-bit overflow inside Int.Add: may_panic).
+//@ func (coins DecCoins) Sub(coinsB DecCoins) (r DecCoins)
+//@   props C18
+//@   may_panic
+//@   define amtA(d) := coins[i].Denom => val(coins[i].Amount) for i in 0..len(coins) else 0
+//@   define amtB(d) := coinsB[i].Denom => val(coinsB[i].Amount) for i in 0..len(coinsB) else 0
+//@   requires forall i int, j int :: {coins[i], coins[j]} 0 <= i && i < j && j < len(coins) ==> str_lt(coins[i].Denom, coins[j].Denom)
+//@   requires forall i int, j int :: {coinsB[i], coinsB[j]} 0 <= i && i < j && j < len(coinsB) ==> str_lt(coinsB[i].Denom, coinsB[j].Denom)
+//@   requires forall i int :: {coins[i]} 0 <= i && i < len(coins) ==> coins[i].Amount.Int != nil && val(coins[i].Amount) != 0
+//@   requires forall i int :: {coinsB[i]} 0 <= i && i < len(coinsB) ==> coinsB[i].Amount.Int != nil && val(coinsB[i].Amount) != 0
+//@   ensures [sorted] forall k int, l int :: {r[k], r[l]} 0 <= k && k < l && l < len(r) ==> str_lt(r[k].Denom, r[l].Denom)
+//@   ensures [amounts] forall k int :: {r[k]} 0 <= k && k < len(r) ==> r[k].Amount.Int != nil && val(r[k].Amount) == amtA(r[k].Denom) - amtB(r[k].Denom) && val(r[k].Amount) > 0
+//@   ensures [completeA] forall i int :: {coins[i]} 0 <= i && i < len(coins) ==> (exists k int :: 0 <= k && k < len(r) && r[k].Denom == coins[i].Denom) || amtA(coins[i].Denom) - amtB(coins[i].Denom) == 0
+//@   ensures [completeB] forall j int :: {coinsB[j]} 0 <= j && j < len(coinsB) ==> (exists k int :: 0 <= k && k < len(r) && r[k].Denom == coinsB[j].Denom) || amtA(coinsB[j].Denom) - amtB(coinsB[j].Denom) == 0
+//@ func (coins DecCoins) IsZero() (r bool)
+//@   props C18
+//@   requires forall i int :: {coins[i]} 0 <= i && i < len(coins) ==> coins[i].Amount.Int != nil
+//@   loop 1 frame
+//@   loop 1 invariant 0 - 1 <= #rangeindex && #rangeindex < len(coins)
+//@   loop 1 invariant forall i int :: {coins[i]} 0 <= i && i <= #rangeindex ==> val(coins[i].Amount) == 0
+//@   ensures r == (forall i int :: {coins[i]} 0 <= i && i < len(coins) ==> val(coins[i].Amount) == 0)
+//@ func (coins DecCoins) Empty() (r bool)
+//@   props C18
+//@   ensures r == (len(coins) == 0)
+//@ func (coins DecCoins) IsAllPositive() (r bool)
+//@   props C18
+//@   requires forall i int :: {coins[i]} 0 <= i && i < len(coins) ==> coins[i].Amount.Int != nil
+//@   loop 1 frame
+//@   loop 1 invariant 0 - 1 <= #rangeindex && #rangeindex < len(coins) && len(coins) > 0
+//@   loop 1 invariant forall i int :: {coins[i]} 0 <= i && i <= #rangeindex ==> val(coins[i].Amount) > 0
+//@   ensures r == (len(coins) > 0 && (forall i int :: {coins[i]} 0 <= i && i < len(coins) ==> val(coins[i].Amount) > 0))
